@@ -77,8 +77,16 @@ func (c *Cache[K, D]) Load(key K) (actual *Element[D]) {
 func (c *Cache[K, D]) CheckExpirations(now time.Time) {
 	c.Range(func(key K, value *Element[D]) bool {
 		if value.IsExpired(now) {
-			c.Delete(key)
-			value.onExpire(value.Data())
+			// Range calls us without the lock: the key may meanwhile hold a fresh element. Remove the
+			// key only if it still holds the expired element we have seen.
+			removed := false
+			c.ReplaceWithFunc(key, func(oldValue *Element[D], oldLoaded bool) (*Element[D], bool) {
+				removed = oldLoaded && oldValue == value && oldValue.IsExpired(now)
+				return oldValue, removed || !oldLoaded
+			})
+			if removed {
+				value.onExpire(value.Data())
+			}
 		}
 		return true
 	})
